@@ -307,6 +307,101 @@ def check_unknown(case):
         raise Violation('%s references an unregistered name -> %r, expected #NAME? with an empty result' % (text, r), r['error'] or enc(r['result']), '#NAME?')
 
 
+# ---------------------------------------------------------------- other spellings of documented names
+
+def check_case_variant(case):
+    name, variant, args = case['name'], case['variant'], case['args']
+    if variant == name:
+        raise Skip('same-spelling')
+    env = Env(vars={'v_a': 4, 'v_b': 9}, cells={'B2': 6})
+    texts = ['%s(%s)' % (variant, args), '%s(%s)+1' % (variant, args), '"x"&%s(%s)' % (variant, args)]
+    refs = ['%s(%s)' % (name, args), '%s(%s)+1' % (name, args), '"x"&%s(%s)' % (name, args)]
+    for t, rt in zip(texts, refs):
+        r = env.parse(t)
+        if r['error'] == '#NAME?' and r['result'] is None:
+            continue            # names are case-sensitive: the other spelling is an unknown function
+        w = env.parse(rt)
+        from ..values import same_outcome
+        if same_outcome(r, w, tol=1e-12):
+            continue            # (an implementation that folds case must then behave like the documented name)
+        raise Violation('%s -> %r: neither #NAME? nor the outcome of %s (%r)' % (t, r, rt, w), r['error'] or enc(r['result']), '#NAME?')
+
+
+def enum_case_variants(tier, shard, nshards):
+    names, _ = documented()
+    i = 0
+    for n in names:
+        if not any(c.isalpha() for c in n):
+            continue
+        for variant in (n.lower(), n.capitalize(), n[0].lower() + n[1:], n.swapcase()):
+            for args in ('', '1', '1,2', 'v_a,B2'):
+                i += 1
+                if i % nshards == shard:
+                    yield {'name': n, 'variant': variant, 'args': args}
+
+
+# ---------------------------------------------------------------- registration histories on one parser
+
+hist_fn = st.sampled_from(['SUM', 'ABS', 'MAX', 'LEN', 'F', 'G.H', 'sum'])
+hist_var = st.sampled_from(['v_x', 'v_y', 'TRUE', 'rate'])
+hist_op = st.one_of(
+    st.tuples(st.just('call'), hist_fn, st.sampled_from(['1', '1,2', '-3', 'v_x', '"ab"', ''])),
+    st.tuples(st.just('call'), hist_fn, st.sampled_from(['1', '1,2', '-3'])),
+    st.tuples(st.just('setf'), hist_fn, st.integers(0, 9)),
+    st.tuples(st.just('setv'), hist_var, st.one_of(st.integers(-5, 5), st.just('txt'), st.none(), st.booleans())),
+    st.tuples(st.just('var'), hist_var),
+    st.tuples(st.just('expr'), st.sampled_from(['SUM(1,2)+ABS(-3)', 'F(1)+1', 'IF(TRUE,v_x,v_y)', 'MAX(v_x,2)&"z"', 'G.H()', 'LEN("abc")*2'])),
+).map(list)
+
+
+def apply_bindings(P, bindings, log):
+    for b in bindings:
+        if b[0] == 'setf':
+            P.set_function(b[1], (lambda *a, k=b[2], n=b[1]: (log.append((n, k, list(a))), 9000 + k)[1]))
+        else:
+            P.set_variable(b[1], b[2])
+
+
+def check_reg_history(case):
+    from ..values import same_outcome
+    P = hot().Parser()
+    bindings = []
+    log = []
+    for step, op in enumerate(case['ops']):
+        if op[0] in ('setf', 'setv'):
+            bindings.append(op)
+            apply_bindings(P, [op], log)
+            continue
+        text = '%s(%s)' % (op[1], op[2]) if op[0] == 'call' else op[1]
+        del log[:]
+        got = P.parse(text)
+        got_log = list(log)
+        F = hot().Parser()
+        del log[:]
+        apply_bindings(F, bindings, log)
+        want = F.parse(text)
+        want_log = list(log)
+        if not same_outcome(got, want) or got_log != want_log:
+            raise Violation('after %r, %s evaluates to %r (custom calls %r); a fresh parser given the same registrations gives %r (custom calls %r)' % (
+                case['ops'][:step], text, got, got_log, want, want_log), got['error'] or enc(got['result']), want['error'] or enc(want['result']))
+
+
+def reg_classes(case):
+    out = set()
+    called = set()
+    for op in case['ops']:
+        if op[0] == 'call':
+            called.add(op[1])
+        if op[0] == 'setf' and op[1] in called:
+            out.add('registered-after-first-call')
+        if op[0] == 'setf' and op[1] in ('SUM', 'ABS', 'MAX', 'LEN'):
+            out.add('shadows-builtin')
+    regs = [op[1] for op in case['ops'] if op[0] == 'setf']
+    if len(regs) != len(set(regs)):
+        out.add('re-registered')
+    return sorted(out)
+
+
 def unknown_key(c):
     return 'unknown-function' if c['node'][0] == 'call' else 'unknown-variable'
 
@@ -330,6 +425,13 @@ LAWS = [
         nontrivial=lambda c: c['pos'] != 'alone',
         rule='an unregistered variable or a call of an unregistered function (0-4 generated arguments) embedded alone, as either operand of every operator, under unary minus, as a call argument, in an array literal, '
              'inside IFERROR, in an IF branch, nested in another unknown call, or deep in an expression: error = #NAME?, result empty'),
+    Law('registration_history', check_reg_history, strategy=st.fixed_dictionaries({'ops': st.lists(hist_op, min_size=2, max_size=12)}), classes=reg_classes, quick=1500, thorough=60000, shards=(8, 16),
+        required=('registered-after-first-call', 'shadows-builtin', 're-registered'), key=lambda c: 'registration-history',
+        nontrivial=lambda c: 'registered-after-first-call' in reg_classes(c) or 're-registered' in reg_classes(c),
+        rule='2-12 operations on one long-lived parser - evaluate a call of a name, register / re-register a custom function under it (also names of built-ins), set variables, evaluate expressions: '
+             'every evaluation gives the outcome and the custom-function call log of a fresh parser given the same registrations; non-trivial = a name registered after it was first called, or re-registered'),
+    Law('case_variants', check_case_variant, enumerate=enum_case_variants, exhaustive=True, shards=(8, 8), weight=lambda c: 3,
+        rule='every documented name in lower, capitalised, first-letter-lower and swapped case x 4 argument lists, alone, +1 and under &: the outcome is #NAME? (other spelling = other function) or exactly that of the documented spelling - never a blank or a partial value'),
 ]
 
 LEVEL_TEXT = 'Hypothesis exploration of name resolution (any identifier-shaped name x any Python value; recording custom functions incl. shadowing built-ins; unknown names at 11 kinds of position) plus an exhaustive sweep of every documented function name.'
